@@ -7,6 +7,7 @@ import (
 	"fmt"
 	"math"
 	"reflect"
+	"sort"
 	"strconv"
 
 	"github.com/smarthome-go/homescript/v3/homescript/analyzer/ast"
@@ -44,7 +45,8 @@ func MarshalValue(self Value, isInner bool) (out interface{}, skipNull bool) {
 		return self.Inner, false
 	case ValueAnyObject:
 		output := make(map[string]interface{}, 0)
-		for key, value := range self.FieldsInternal {
+		for _, key := range sortedFieldKeys(self.FieldsInternal) {
+			value := self.FieldsInternal[key]
 			if value == nil {
 				return nil, false
 			}
@@ -57,7 +59,8 @@ func MarshalValue(self Value, isInner bool) (out interface{}, skipNull bool) {
 		return output, false
 	case ValueObject:
 		output := make(map[string]interface{}, 0)
-		for key, value := range self.FieldsInternal {
+		for _, key := range sortedFieldKeys(self.FieldsInternal) {
+			value := self.FieldsInternal[key]
 			if value == nil {
 				return nil, false
 			}
@@ -93,6 +96,17 @@ func MarshalValue(self Value, isInner bool) (out interface{}, skipNull bool) {
 	default:
 		panic(fmt.Sprintf("Cannot encode value of type '%v' to JSON", self.Kind()))
 	}
+}
+
+// Returns the field names in a fixed order: if several fields cannot be encoded,
+// map iteration order would otherwise decide which of them the error reports.
+func sortedFieldKeys(fields map[string]*Value) []string {
+	keys := make([]string, 0, len(fields))
+	for key := range fields {
+		keys = append(keys, key)
+	}
+	sort.Strings(keys)
+	return keys
 }
 
 func TypeAwareUnmarshalValue(self interface{}, typ ast.Type) *Value {
